@@ -265,8 +265,48 @@ class _Canon(ast.NodeTransformer):
         node.body = self._guards(node.body, False)
         return node
 
+    @staticmethod
+    def _filter_loops(block):
+        """`L = []` + `for x in IT: if C: L.append(x)` (or the else-side form) is `L = [x for x in IT if C]`"""
+        i = 0
+        while i + 1 < len(block):
+            a, lp = block[i], block[i + 1]
+            i += 1
+            if not (isinstance(a, ast.Assign) and len(a.targets) == 1 and isinstance(a.targets[0], ast.Name)
+                    and isinstance(a.value, ast.List) and not a.value.elts):
+                continue
+            if not (isinstance(lp, ast.For) and isinstance(lp.target, ast.Name) and not lp.orelse and len(lp.body) == 1 and isinstance(lp.body[0], ast.If)):
+                continue
+            name, var, cond = a.targets[0].id, lp.target.id, lp.body[0]
+
+            def is_append(stmts):
+                return len(stmts) == 1 and isinstance(stmts[0], ast.Expr) and isinstance(stmts[0].value, ast.Call) \
+                    and isinstance(stmts[0].value.func, ast.Attribute) and stmts[0].value.func.attr == "append" \
+                    and isinstance(stmts[0].value.func.value, ast.Name) and stmts[0].value.func.value.id == name \
+                    and len(stmts[0].value.args) == 1 and isinstance(stmts[0].value.args[0], ast.Name) and stmts[0].value.args[0].id == var
+
+            def is_noop(stmts):
+                return not stmts or all(isinstance(x, ast.Pass) for x in stmts)
+            test = None
+            if is_append(cond.body) and is_noop(cond.orelse):
+                test = cond.test
+            elif is_noop(cond.body) and is_append(cond.orelse):
+                t = cond.test
+                if isinstance(t, ast.Compare) and len(t.ops) == 1 and isinstance(t.ops[0], (ast.In, ast.NotIn, ast.Is, ast.IsNot, ast.Eq, ast.NotEq)):
+                    flip = {ast.In: ast.NotIn, ast.NotIn: ast.In, ast.Is: ast.IsNot, ast.IsNot: ast.Is, ast.Eq: ast.NotEq, ast.NotEq: ast.Eq}
+                    test = ast.copy_location(ast.Compare(left=t.left, ops=[flip[type(t.ops[0])]()], comparators=t.comparators), t)
+                else:
+                    test = ast.copy_location(ast.UnaryOp(op=ast.Not(), operand=t), t)
+            if test is None:
+                continue
+            comp = ast.ListComp(elt=ast.Name(id=var, ctx=ast.Load()), generators=[ast.comprehension(target=ast.Name(id=var, ctx=ast.Store()), iter=lp.iter, ifs=[test], is_async=0)])
+            a.value = ast.copy_location(comp, lp)
+            ast.fix_missing_locations(a)
+            del block[i]
+
     def visit_FunctionDef(self, node):
         self.generic_visit(node)
+        self._filter_loops(node.body)
         _propagate_temps(node)
         node.body = self._guards(node.body, False)
         return node
